@@ -253,7 +253,8 @@ class C14(PropCheck):
                   "AddVersion window arithmetic, cleanupOldVersions, cas validation, delete/undelete/destroy, metadata and "
                   "config writes, write/patch at storage-operation granularity with a fault knob, per-key lock schedule "
                   "model): versions_consecutive, cas_exact, read_version_exact, ops_local, prune_exact, "
-                  "failed_write_no_change (every fault position), cas_one_winner and kv_linearizable (every schedule, any "
+                  "failed_write_no_change (every fault position), failed_config_write_no_change (mount config, every fault "
+                  "position, cold and warm cache; full since the repair of F28), cas_one_winner and kv_linearizable (every schedule, any "
                   "number of threads); the model is tied to the Go code by three differential streams on every run "
                   "(sequential histories, every single-fault position of write/patch incl. the exact storage-operation "
                   "count, gated concurrent schedules checked for linearizability) and the property predicates are "
